@@ -1,6 +1,6 @@
 -------------------------- MODULE TrustChainTrace --------------------------
 (* Trace validation for C14: what the harness did to the validator instances of one world
-   (NewValidator / Validate / FetchReply as the world says) and, after the loop went quiescent,
+   (NewValidator / Validate / FetchReply as the world says / Heal) and, after the loop went quiescent,
    what it observed: constructor outcome per instance, certificate Interests per instance, verdicts
    in order of completion. The internal steps (CheckSchema, UseAnchor, UseCache, Fetch, VerifySig,
    Verdict) are not observed: TLC looks for them. The world is part of the trace. *)
@@ -16,7 +16,7 @@ RangeOf(s) == {s[i] : i \in 1..Len(s)}
 \* JSON arrays -> sets
 WorldOf(j) == [schema |-> {<<x[1], x[2]>> : x \in RangeOf(j.schema)},
                roots |-> RangeOf(j.roots), shape |-> j.shape, certs |-> j.certs, pkts |-> j.pkts,
-               kt |-> j.kt, sch |-> j.sch]
+               kt |-> j.kt, sch |-> j.sch, epoch |-> 0]
 
 TInit == /\ tid \in 1..Len(Traces)
          /\ l = 1 /\ ph = "env"
@@ -34,6 +34,7 @@ Stim(e) ==
   CASE e.a = "NewValidator" -> NewValidator(e.v, e.x)
     [] e.a = "Validate" -> Validate(e.v, e.p)
     [] e.a = "FetchReply" -> FetchReply(e.v, e.kind)
+    [] e.a = "Heal" -> Heal(e.x)
     [] OTHER -> FALSE
 
 TEnv == /\ ph = "env" /\ l <= Len(Tr)
